@@ -195,12 +195,8 @@ func (m *Machine) ifaceModel(st *State, fr *Frame, instr ssa.Instruction, iname 
 		m.timePasses(st)
 		return rets
 	case iname == "Handler.Serve":
-		use("user handler: returns; may keep and modify the message it is given; touches library state only through the public API")
+		use("user handler: returns; does not modify the message before returning (it may keep it); touches library state only through the public API")
 		m.escapeValue(st, sig.Params().At(0).Type(), args[0])
-		// ownership of the message passes to the handler: its fields may change
-		if p, ok := args[0].(*Ptr); ok {
-			m.havocLoc(st, p, "served")
-		}
 		m.addEvent(st, iname, all, nil)
 		m.timePasses(st)
 		return nil
@@ -254,6 +250,17 @@ func (m *Machine) lockOp(st *State, fr *Frame, instr ssa.Instruction, mu *Ptr, m
 		loc, ok := m.fieldLoc(mu, field)
 		if ok {
 			m.havocLoc(st, loc, "g."+field)
+			if _, isMap := loc.Elem.Underlying().(*types.Map); isMap {
+				// other goroutines may also have changed the content of a guarded map
+				ref := m.Load(st, loc).(*Term)
+				m.havocMapContent(st, loc.Elem, ref)
+				ng := make(map[int]*MapSnap, len(st.guardSnaps)+1)
+				for k, v := range st.guardSnaps {
+					ng[k] = v
+				}
+				ng[ref.id] = m.mapSnapOf(st, loc.Elem, ref)
+				st.guardSnaps = ng
+			}
 		}
 	}
 	m.timePasses(st)
@@ -330,6 +337,9 @@ func (m *Machine) guardMap(st *State, fr *Frame, instr ssa.Instruction, mv ssa.V
 // timePasses: other goroutines may run; channels may have been closed meanwhile.
 func (m *Machine) timePasses(st *State) {
 	st.chanVer++
+	// code we do not see (callees by contract, callbacks, other goroutines) may allocate:
+	// reserve identifiers so that references they hand back can denote new objects
+	m.ctx.nfresh += 16
 }
 
 // ---------- channels ----------
@@ -648,4 +658,30 @@ func (m *Machine) stringsContains(st *State, args []Value) []Value {
 	m.trusted["strings.Contains(s, c) for a one-byte c: true iff some index i < len(s) has s[i] == c"] = true
 	b := m.ctx.Select(sub.Arr, m.ts.IdxConst(0))
 	return []Value{m.hasByteTerm(s, b)}
+}
+
+func (m *Machine) havocMapContent(st *State, t types.Type, ref *Term) {
+	c := m.ctx
+	name, mt := m.mapNames(t)
+	ks := m.ts.Leaves(mt.Key())[0].sort
+	pa, pn := m.mapPresent(st, t, ref)
+	st.heap[pn] = c.Store(pa, ref, c.Fresh("mp", ArrSort(ks, BoolSort)))
+	for _, l := range m.ts.Leaves(mt.Elem()) {
+		n := name + ".val." + l.path
+		a := m.heapGet(st, n, ArrSort(IntSort, ArrSort(ks, l.sort)))
+		st.heap[n] = c.Store(a, ref, c.Fresh("mv", ArrSort(ks, l.sort)))
+	}
+}
+
+func (m *Machine) mapSnapOf(st *State, t types.Type, ref *Term) *MapSnap {
+	name, mt := m.mapNames(t)
+	ks := m.ts.Leaves(mt.Key())[0].sort
+	pa, _ := m.mapPresent(st, t, ref)
+	ms := &MapSnap{Present: m.ctx.Select(pa, ref), Map: mt}
+	for _, l := range m.ts.Leaves(mt.Elem()) {
+		n := name + ".val." + l.path
+		a := m.heapGet(st, n, ArrSort(IntSort, ArrSort(ks, l.sort)))
+		ms.Vals = append(ms.Vals, m.ctx.Select(a, ref))
+	}
+	return ms
 }
